@@ -6,6 +6,7 @@ mod pauli;
 mod lattice;
 mod stateops;
 mod measure;
+mod circuit;
 mod util;
 
 use serde_json::{json, Value};
@@ -22,6 +23,7 @@ fn dispatch(case: &Value) -> Value {
         "lattice" => lattice::run_lattice(case),
         "state" => stateops::run_state(case),
         "measure" => measure::run_measure(case),
+        "circuit" => circuit::run_circuit(case),
         "sched" => sched(case),
         other => json!({"r": "harness_error", "e": format!("unknown op {}", other)}),
     }
